@@ -33,11 +33,11 @@ func main() {
 	switch *prop {
 	case "C04":
 		run = ev.Begin("C04", *tier, "exploration")
-		enumx.Run(run, "C04", []string{"c04-types", "c04-ms", "c04-product", "c04-errors", "c04-bodybytes", "c04-long", "c04-runes", "c04-literals", "c04-collisions", "c04-now"}, *tier, 16, true)
+		enumx.Run(run, "C04", []string{"c04-types", "c04-ms", "c04-product", "c04-errors", "c04-bodybytes", "c04-long", "c04-runes", "c04-literals", "c04-collisions", "c04-now", "c04-selfsimilar"}, *tier, 16, true)
 		run.Set("rule", "lines 'type=T msg=audit(S.mmm:N): body' written by an independent formatter: all 65536 types x 3 spellings (name, lower case, UNKNOWN[n]); all 1000 millisecond strings; full product of boundary types x seconds x ms x sequences x hostile bodies; error side: every proper prefix and every single-byte substitution of boundary headers. non-trivial = accepted line whose every header field and ToMapStr key matched the independent expectation, or must-fail line that was rejected")
 	case "C05":
 		run = ev.Begin("C05", *tier, "exploration")
-		enumx.Run(run, "C05", []string{"c05-lines", "c05-bodies", "c05-alltypes", "c05-golden", "c05-typenames", "c05-long", "c05-padding", "c05-multikey", "c05-runes", "c05-numbers", "c05-keypairs", "c05-literals", "c05-case", "c05-saddr-bytes", "c05-after-coalesce", "c05-prefix", "c05-amounts"}, *tier, 32, true)
+		enumx.Run(run, "C05", []string{"c05-lines", "c05-bodies", "c05-alltypes", "c05-golden", "c05-typenames", "c05-long", "c05-padding", "c05-multikey", "c05-runes", "c05-numbers", "c05-keypairs", "c05-literals", "c05-case", "c05-saddr-bytes", "c05-after-coalesce", "c05-prefix", "c05-amounts", "c05-avc"}, *tier, 32, true)
 		run.Set("rule", "all token sequences of length <=3 (quick) / <=4 (thorough) over a token alphabet built from every literal the parser reacts to, as whole log lines and as bodies behind a valid header x 16 record-type classes; all 65536 types x short bodies; every truncation of every golden log line. Oracle: no panic/hang, msg==nil <=> err!=nil, Data/Tags/ToMapStr repeatable. non-trivial = input the parser accepted and for which Data() returned at least one field")
 	case "C12":
 		run = ev.Begin("C12", *tier, "exploration")
